@@ -4,7 +4,8 @@ pub fn shift_left_small(limbs: &mut [u64], amount: usize) -> u64 {
     let mut overflow = 0;
     for limb in limbs {
         let value = (*limb << amount) | overflow;
-        overflow = *limb >> (64 - amount);
+        // Shift in two steps so that `amount == 0` is well defined.
+        overflow = (*limb >> (63 - amount)) >> 1;
         *limb = value;
     }
     overflow
@@ -17,7 +18,8 @@ pub fn shift_right_small(limbs: &mut [u64], amount: usize) -> u64 {
     let mut overflow = 0;
     for limb in limbs.iter_mut().rev() {
         let value = (*limb >> amount) | overflow;
-        overflow = *limb << (64 - amount);
+        // Shift in two steps so that `amount == 0` is well defined.
+        overflow = (*limb << (63 - amount)) << 1;
         *limb = value;
     }
     overflow
